@@ -157,3 +157,73 @@ package matcher
 //@            len(result.(*gSequence).items[1].(*gRepeat0).r.(*gSequence).items) == 2 &&
 //@            result.(*gSequence).items[1].(*gRepeat0).r.(*gSequence).items[0] == b &&
 //@            result.(*gSequence).items[1].(*gRepeat0).r.(*gSequence).items[1] == a
+//@
+//@ # ---- C29: when an ordered choice may commit to an alternative (Choices.CheckConflicts) ----
+//@ # An alternative may stop the choice after consuming tokens (stops[i]) exactly when its FIRST set conflicts with
+//@ # the FIRST set of no LATER alternative. conflictU(me, next): some element of me conflicts with some element of
+//@ # next (same token; a literal conflicts with the same literal and with its bare token when the token comes
+//@ # first). It is defined by conflictDef, which only hasConflict's own proof uses; conflictWith and CheckConflicts
+//@ # are proved for any relation.
+//@ pred firstElemOK(x any) := istype(x, token.Token) || (istype(x, *MatchToken) && x.(*MatchToken) != nil)
+//@ pred firstOK(a []any) := forall k in 0..len(a) :: firstElemOK(a[k])
+//@ spec tokConf(me token.Token, x any) bool := (istype(x, *MatchToken) && x.(*MatchToken).Tok == me) || (istype(x, token.Token) && x.(token.Token) == me)
+//@ spec mtConf(me *MatchToken, x any) bool := istype(x, *MatchToken) && x.(*MatchToken).Tok == me.Tok && x.(*MatchToken).Lit == me.Lit
+//@ spec meConf(m any, next []any) bool := istype(m, token.Token) ? (exists k in 0..len(next) :: tokConf(m.(token.Token), next[k])) :
+//@        (exists k in 0..len(next) :: mtConf(m.(*MatchToken), next[k]))
+//@ ufunc conflictU(me []any, next []any) bool
+//@ axiom manual conflictDef := forall me []any :: forall next []any :: conflictU(me, next) == (exists m in 0..len(me) :: meConf(me[m], next))
+//@
+//@ func hasConflictToken
+//@   requires firstOK(next)
+//@   assigns nothing
+//@   ensures [c29.token-conflict] result == (exists k in 0..len(next) :: tokConf(me, next[k]))
+//@ loop hasConflictToken#1
+//@   invariant forall k in 0..rangeindex+1 :: !tokConf(me, next[k])
+//@ func hasConflictMatchToken
+//@   requires me != nil && firstOK(next)
+//@   assigns nothing
+//@   ensures [c29.literal-conflict] result == (exists k in 0..len(next) :: mtConf(me, next[k]))
+//@ loop hasConflictMatchToken#1
+//@   invariant forall k in 0..rangeindex+1 :: !mtConf(me, next[k])
+//@ func hasConflictMe
+//@   requires firstElemOK(me) && firstOK(next)
+//@   assigns nothing
+//@   ensures [c29.element-conflict] result == meConf(me, next)
+//@ func hasConflict
+//@   requires firstOK(me) && firstOK(next)
+//@   assigns nothing
+//@   use conflictDef(me, next)
+//@   ensures [c29.first-sets-conflict] result == conflictU(me, next)
+//@ loop hasConflict#1
+//@   invariant forall m in 0..rangeindex+1 :: !meConf(me[m], next)
+//@ func conflictWith
+//@   requires from >= 0 && firstOK(me) && (forall j in from..len(next) :: firstOK(next[j]))
+//@   assigns nothing
+//@   ensures [c29.no-later-conflict] result == -1 ==> forall j in from..len(next) :: !conflictU(me, next[j])
+//@   ensures [c29.first-later-conflict] result != -1 ==> from <= result && result < len(next) && conflictU(me, next[result]) &&
+//@           (forall j in from..result :: !conflictU(me, next[j]))
+//@ loop conflictWith#1
+//@   invariant from <= i && (i <= n || n < from) && n == len(next)
+//@   invariant forall j in from..i :: !conflictU(me, next[j])
+//@   decreases n - i
+//@
+//@ # the FIRST sets come from Matcher.First, whose implementations are not verified: ASSUMED to hold tokens and
+//@ # non-nil literals only (what hasConflict* need in order not to reach their panic("unreachable"))
+//@ interface Matcher.First
+//@   requires this != nil
+//@   assigns nothing
+//@   ensures [first-elements] in == nil ==> firstOK(first)
+//@ func (*Choices).CheckConflicts
+//@   option pure_funcs yes
+//@   requires p != nil && (forall i in 0..len(p.options) :: p.options[i] != nil) && conflict != nil
+//@   assigns p.stops
+//@   at fieldstore stops#1 assert [c29.commit-iff-no-later-conflict] len(stops) == len(p.options) &&
+//@           (forall i in 0..len(stops) :: stops[i] == (forall j in i+1..len(stops) :: !conflictU(firsts[i], firsts[j])))
+//@ loop (*Choices).CheckConflicts#1
+//@   invariant p != nil && n == len(options) && options == p.options && len(firsts) == n && fresh(firsts)
+//@   invariant forall k in 0..rangeindex+1 :: firstOK(firsts[k])
+//@ loop (*Choices).CheckConflicts#2
+//@   invariant p != nil && n == len(options) && options == p.options && len(firsts) == n && len(stops) == n && fresh(stops) && fresh(firsts)
+//@   invariant forall k in 0..n :: firstOK(firsts[k])
+//@   invariant [c29.commit-so-far] forall i in 0..rangeindex+1 :: stops[i] == (forall j in i+1..n :: !conflictU(firsts[i], firsts[j]))
+//@   invariant forall i in rangeindex+1..n :: !stops[i]
